@@ -244,8 +244,12 @@ var tails = [][]string{
 	{"reopen", "listitem", "footnote", "render", "listitem", "endnote", "reopen", "numbered"},
 }
 
+// startSchemes: how the ids of the start package's styles part relate to the ids the library emits: the same (none),
+// localised numbers/letters (zh, wps), or near misses that differ from the library's ids only in letter case or by a suffix
+var startSchemes = []string{"none", "zh", "zh", "wps", "wps", "lower", "upper", "suffix"}
+
 func genStart(t *rapid.T) *Start {
-	s := &Start{Scheme: rapid.SampledFrom([]string{"none", "zh", "wps"}).Draw(t, "scheme"), Strip: rapid.Bool().Draw(t, "strip"),
+	s := &Start{Scheme: rapid.SampledFrom(startSchemes).Draw(t, "scheme"), Strip: rapid.Bool().Draw(t, "strip"),
 		Custom: rapid.Bool().Draw(t, "custom"), Quote: rapid.Bool().Draw(t, "quote"),
 		Lists: rapid.IntRange(0, 4).Draw(t, "lists"), Footnotes: rapid.IntRange(0, 3).Draw(t, "fn"), Endnotes: rapid.IntRange(0, 3).Draw(t, "en")}
 	// now and then the package carries more than nine lists / notes (two-digit ids that the ids given later must not collide with)
@@ -1297,6 +1301,9 @@ func run(c Case) *kit.Result {
 	if c.Start != nil {
 		res.Label("start:foreign")
 		res.Label("start:scheme-" + c.Start.Scheme)
+		if nearMissSchemes[c.Start.Scheme] != nil {
+			res.Label("start:near-miss-ids")
+		}
 		if c.Start.Strip {
 			res.Label("start:stripped")
 		}
@@ -1407,7 +1414,7 @@ func run(c Case) *kit.Result {
 func TestC13(t *testing.T) {
 	kit.Main(t, kit.Spec[Case]{
 		ID: "C13", Level: "exploration",
-		Rule: "history of 1-18 (thorough 1-40) generated calls (+ a scenario tail in 3/4 of the cases: multi-step shapes; remove-then-emit; order-of-calls shape = a table of contents without level L is built [and saved], the unused TOC/heading style of level L removed, then a heading of level L and UpdateTOC/GenerateTOC/AutoGenerateTOC; rejected-call shape = notes with blank text, nil configs, unknown ids, out-of-range levels, then save/reopen/render and one more note) over the style API (CreateCustomStyle, AddStyle, in-place change, RemoveStyle of an unused custom or predefined style - also right before the heading/TOC call that would normally use it, CreateQuickStyle), styled content (headings 1-9, SetStyle with an id registered at that moment, quote/code via markdown, GenerateTOC/AutoGenerateTOC/UpdateTOC, ApplyTableStyle, CreateCustomTableStyle), list items, notes (AddFootnote/AddEndnote/AddFootnoteToRun; a third of the note texts empty or whitespace-only), calls with rejected/corrected arguments (RemoveFootnote/RemoveEndnote/RestartNumbering/RemoveStyle of unknown ids, AddListItem/GenerateTOC/AutoGenerateTOC/SetFootnoteConfig/CreateMultiLevelList with nil, CreateQuickStyle of an existing id, heading and SetTOCStyle levels outside 1-9, ApplyTableStyle/CreateCustomTableStyle without an id), saves (ToBytes/Save), reopen (same process / fresh process) and render (the current document is loaded as the base document of a template, LoadTemplateFromDocument + RenderTemplateToDocument with empty data, and the history goes on with the rendered copy); 1/4 of the cases start from a package with localised style ids, its own numbering and notes, half of these with numbering/notes parts that bind the main namespace to ns0: or make it the default namespace; two in five of the start packages lack optional parts: no word/styles.xml (or a zero-length one, or one without any w:style) while keeping their lists and notes, or the bare three-part package of a minimal producer; half of the start packages that have a styles part (also a style-less one) bind the main namespace there to ns0: or make it the default namespace, a third lay the part out differently (indented; tabs + comments + w:latentStyles + single-quoted XML declaration); one in ten carries 9-12 lists / footnotes / endnotes. One history in nine ends with the many-of-one-kind shape (one note / list / heading / style-creating / table-style call repeated 9-12 times, rarely 16-18, 32-34 or 64-66 times, then save/reopen/render and the call once more), one in nine with the two-documents shape (swap: a second document object - new, or opened from a save of the current one - and the history goes back and forth between the two; both are saved and judged at the end); style ids also one past the heading range (Heading10), a case variant of a predefined id, ids with &, <, a blank, non-ASCII letters, 70 characters, and style names equal to predefined names; in-place changes on an opened document pick, a third of the time, any id its styles part defines. Every intermediate and the final package is judged on X1-X4; the base document of a render is saved once more when the history ends (or the next render replaces it) and that package is judged on X1-X3. Non-trivial = >=2 judged saves with a style/list/TOC op between them, or an opened package extended by a style-API or list op, or a rendered copy extended by a style-API, list or note op, or styled content added to a document opened from a package without style definitions, or a judged save after a rejected call / blank note text; distinct = distinct (start shape, op kind sequence)",
+		Rule: "history of 1-18 (thorough 1-40) generated calls (+ a scenario tail in 3/4 of the cases: multi-step shapes; remove-then-emit; order-of-calls shape = a table of contents without level L is built [and saved], the unused TOC/heading style of level L removed, then a heading of level L and UpdateTOC/GenerateTOC/AutoGenerateTOC; rejected-call shape = notes with blank text, nil configs, unknown ids, out-of-range levels, then save/reopen/render and one more note) over the style API (CreateCustomStyle, AddStyle, in-place change, RemoveStyle of an unused custom or predefined style - also right before the heading/TOC call that would normally use it, CreateQuickStyle), styled content (headings 1-9, SetStyle with an id registered at that moment, quote/code via markdown, GenerateTOC/AutoGenerateTOC/UpdateTOC, ApplyTableStyle, CreateCustomTableStyle), list items, notes (AddFootnote/AddEndnote/AddFootnoteToRun; a third of the note texts empty or whitespace-only), calls with rejected/corrected arguments (RemoveFootnote/RemoveEndnote/RestartNumbering/RemoveStyle of unknown ids, AddListItem/GenerateTOC/AutoGenerateTOC/SetFootnoteConfig/CreateMultiLevelList with nil, CreateQuickStyle of an existing id, heading and SetTOCStyle levels outside 1-9, ApplyTableStyle/CreateCustomTableStyle without an id), saves (ToBytes/Save), reopen (same process / fresh process) and render (the current document is loaded as the base document of a template, LoadTemplateFromDocument + RenderTemplateToDocument with empty data, and the history goes on with the rendered copy); 1/4 of the cases start from a package with localised style ids (Word zh-CN / WPS numbers and letters) or with near-miss ids (every id of its styles part is the library's id in lower case, in upper case, or with a suffix: heading1 / HEADING1 / Heading1x - so that no id the library emits later is defined there by exact comparison), its own numbering and notes, half of these with numbering/notes parts that bind the main namespace to ns0: or make it the default namespace; two in five of the start packages lack optional parts: no word/styles.xml (or a zero-length one, or one without any w:style) while keeping their lists and notes, or the bare three-part package of a minimal producer; half of the start packages that have a styles part (also a style-less one) bind the main namespace there to ns0: or make it the default namespace, a third lay the part out differently (indented; tabs + comments + w:latentStyles + single-quoted XML declaration); one in ten carries 9-12 lists / footnotes / endnotes. One history in nine ends with the many-of-one-kind shape (one note / list / heading / style-creating / table-style call repeated 9-12 times, rarely 16-18, 32-34 or 64-66 times, then save/reopen/render and the call once more), one in nine with the two-documents shape (swap: a second document object - new, or opened from a save of the current one - and the history goes back and forth between the two; both are saved and judged at the end); style ids also one past the heading range (Heading10), a case variant of a predefined id, ids with &, <, a blank, non-ASCII letters, 70 characters, and style names equal to predefined names; in-place changes on an opened document pick, a third of the time, any id its styles part defines. Every intermediate and the final package is judged on X1-X4; the base document of a render is saved once more when the history ends (or the next render replaces it) and that package is judged on X1-X3. Non-trivial = >=2 judged saves with a style/list/TOC op between them, or an opened package extended by a style-API or list op, or a rendered copy extended by a style-API, list or note op, or styled content added to a document opened from a package without style definitions, or a judged save after a rejected call / blank note text; distinct = distinct (start shape, op kind sequence)",
 		Gen:  genCase, Run: run, Findings: findings,
 		Assumptions: []string{
 			"ids are resolved by the harness's own zip/OPC reader and canonical XML trees; the styles/numbering/notes parts are located through the main part's relationships, else by content type, else by their conventional names (where a relationship is missing or misplaced is C02's clause, except the numbering relationship which X2 names)",
@@ -1420,7 +1427,7 @@ func TestC13(t *testing.T) {
 			"template rendering is used as one more way (besides Open) in which a document object with its own list/note/style definitions comes into being; it is rendered with empty template data and the generated texts contain no template syntax, so the rendered copy must resolve every id exactly as its base does",
 			"namespace bindings of the parts of a start package are rewritten by the harness (same infoset; the styles part loses the root's mc:Ignorable attribute, whose prefixes it no longer declares, and in one layout gains comments and a w:latentStyles block); ids are resolved by expanded names (namespace URI + local name), never by prefix - a definition written with a prefix that is not bound to the WordprocessingML namespace defines nothing",
 			"with two document objects in one history every op goes to the current one and each object has its own bookkeeping (registered ids, expectations, what it was opened from); both objects' packages are judged with their own bookkeeping"},
-		MustSee: map[string]float64{"saves>=2": 0.5, "style/list/toc-op-between-saves": 0.3, "opened-then-extended": 0.15, "start:foreign": 0.15,
+		MustSee: map[string]float64{"saves>=2": 0.5, "style/list/toc-op-between-saves": 0.3, "opened-then-extended": 0.15, "start:foreign": 0.15, "start:near-miss-ids": 0.02,
 			"style:early": 0.2, "style:after-save": 0.08, "style:on-opened": 0.15, "remove:heading-style": 0.05, "heading:after-its-style-removed": 0.03, "toc:after-removed-toc-style": 0.01, "op:pstyle": 0.2, "pstyle:api-style": 0.05, "heading:9": 0.05, "op:autotoc": 0.05, "op:toc": 0.05,
 			"op:tblstyle-template": 0.05, "op:tblcustom": 0.03, "op:list": 0.2, "op:note": 0.3, "list:after-open-with-lists": 0.03,
 			"note:after-open-with-notes": 0.03, "op:render": 0.1, "render:of-opened": 0.05, "render:base-with-lists": 0.04, "list:after-render": 0.03, "note:after-render": 0.03,
